@@ -747,6 +747,57 @@ Definition meets_contract (fixed : bool) (c : config) (heads : list head) (H W :
               end
   end.
 
+(* ------------------------------------------------ validity, as a boolean *)
+(* "valid" = accepted by config/model_config.py and inside the documented ranges:
+   strides are powers of two, backbone output stride <= every head stride <=
+   max stride, UNet: stem stride <= max stride, filters_rate >= 1;
+   ConvNeXt / Swin-T: four stages whose widths double (the shipped tiny/small/
+   base/large, or a well-formed custom arch), base width a multiple of 4,
+   filters_rate 2 (= the encoder's width ratio), stem kernel 4, stem stride 2 or 4 *)
+Definition is_pow2 (z : Z) : bool := (0 <? z) && (z =? 2 ^ Z.log2 z).
+Definition q_is (q : Q) (n : Z) (d : positive) : bool := (Qnum q =? n) && Pos.eqb (Qden q) d.
+
+Definition valid_heads (c : config) (heads : list head) : bool :=
+  negb (match heads with [] => true | _ => false end) &&
+  forallb (fun h => is_pow2 (h_os h) && (cfg_output_stride c <=? h_os h) &&
+                    (h_os h <=? Z.max (cfg_max_stride c) (effective_max_stride c))) heads.
+
+Definition convnext_arch_ok (u : convnext_cfg) : bool :=
+  match convnext_arch u with
+  | (ds, [c0; c1; c2; c3]) =>
+      Nat.eqb (length ds) 4 && (0 <? c0) && (c0 mod 4 =? 0) &&
+      (c1 =? 2 * c0) && (c2 =? 4 * c0) && (c3 =? 8 * c0)
+  | _ => false
+  end.
+
+Definition swint_arch_ok (u : swint_cfg) : bool :=
+  match swint_arch u with
+  | (E, ds, [n0; n1; n2; n3]) =>
+      Nat.eqb (length ds) 4 && (0 <? E) && (E mod 4 =? 0) &&
+      (E mod n0 =? 0) && ((2 * E) mod n1 =? 0) && ((2 * (2 * E)) mod n2 =? 0) &&
+      ((2 * (2 * (2 * E))) mod n3 =? 0)
+  | _ => false
+  end.
+
+Definition valid_config (c : config) (heads : list head) : bool :=
+  is_pow2 (cfg_output_stride c) && is_pow2 (cfg_max_stride c) && valid_heads c heads &&
+  match c with
+  | CfgUNet u =>
+      (2 <=? u_max_stride u) && (1 <=? u_convs_per_block u) && (1 <=? u_filters u) &&
+      Qle_bool 1 (u_rate u) &&
+      match u_stem_stride u with None => true | Some s => is_pow2 s && (s <=? u_max_stride u) end
+  | CfgConvNext u =>
+      q_is (c_rate u) 2 1 && ((c_stem_stride u =? 2) || (c_stem_stride u =? 4)) &&
+      (c_stem_kernel u =? 4) && convnext_arch_ok u
+  | CfgSwinT u =>
+      q_is (s_rate u) 2 1 && ((s_stem_stride u =? 2) || (s_stem_stride u =? 4)) &&
+      (s_patch u =? 4) && swint_arch_ok u
+  end.
+
+(* the property's inputs: sides are positive multiples of the configured max_stride *)
+Definition in_domain (c : config) (H W : Z) : bool :=
+  (0 <? H) && (0 <? W) && (H mod cfg_max_stride c =? 0) && (W mod cfg_max_stride c =? 0).
+
 (* ------------------------------------------------ harness entry point *)
 Inductive case :=
 | CModel (fixed : bool) (c : config) (mt : model_type) (parts edges os_c os_p : Z)
